@@ -34,7 +34,7 @@ func init() {
 			Edits: []edit{{ans, "\t\trecordFound = false\n\t\twildcard    = false\n\t\t// resource record pointer used during record lookups\n\t\trec ResourceRecord\n\t\t// rr will be used to construct temporary ResourceRecords\n\t\trr  dns.RR\n\t\trrs []dns.RR\n\t)\n\n\tparseResult := func(result []byte) error {\n\t\tif errors.Is(err, io.EOF) {\n\t\t\treturn nil\n\t\t}\n\n\t\tif rec, err = ExtractRRFromRow(result, wildcard); err != nil {\n\t\t\t// Not a location match\n\t\t\t// nolint:nilerr", "\t\trecordFound = false\n\t\twildcard    = true\n\t\t// resource record pointer used during record lookups\n\t\trec ResourceRecord\n\t\t// rr will be used to construct temporary ResourceRecords\n\t\trr  dns.RR\n\t\trrs []dns.RR\n\t)\n\n\tparseResult := func(result []byte) error {\n\t\tif errors.Is(err, io.EOF) {\n\t\t\treturn nil\n\t\t}\n\n\t\tif rec, err = ExtractRRFromRow(result, wildcard); err != nil {\n\t\t\t// Not a location match\n\t\t\t// nolint:nilerr"}}},
 		variant{Name: "c01-sorted-extract-constant-flag", Props: []string{"C01"}, Expect: []string{"C01.wildflag|(*db.sortedDataReader).FindAnswer|extract-uses-flag"},
 			Edits: []edit{{srt, "\t\tif rec, err = ExtractRRFromRow(result, wildcard); err != nil {\n\t\t\t// Not a location match\n\t\t\t// nolint: nilerr", "\t\tif rec, err = ExtractRRFromRow(result, false && wildcard); err != nil {\n\t\t\t// Not a location match\n\t\t\t// nolint: nilerr"}}},
-		variant{Name: "c01-sorted-cname-disjunct-removed", Props: []string{"C01"}, Expect: []string{"C01.typefilter|FindAnswer|"},
+		variant{Name: "c01-sorted-cname-disjunct-removed", Props: []string{"C01"}, Expect: []string{"C01.typefilter|"},
 			Edits: []edit{{srt, "\t\tif rec.Qtype == dns.TypeCNAME || rec.Qtype == qtype || qtype == dns.TypeANY {\n\t\t\t// When dealing with A/AAAA we may have weighted round-robin records\n\t\t\t// Compute the weight and update wrr4/wrr6 with the current winner.\n\t\t\t// When we are done looping, we will add the record to the answer.\n\t\t\tif rec.Qtype == dns.TypeA || rec.Qtype == dns.TypeAAAA {\n\t\t\t\tif err := wrs.Add(rec, result); err != nil {\n\t\t\t\t\tglog.Errorf(\"Failed in adding record to WRS: %v\", err)\n\t\t\t\t}\n\t\t\t\t// For other records, we append them to the answer.\n\t\t\t} else {\n\t\t\t\thdr := dns.RR_Header{Name: qname, Rrtype: rec.Qtype, Class: dns.ClassINET, Ttl: rec.TTL, Rdlength: uint16(len(result[rec.Offset:]))}\n\t\t\t\trr, _, err = dns.UnpackRRWithHeader(hdr, result, rec.Offset)\n\t\t\t\tif err != nil {\n\t\t\t\t\tglog.Errorf(\"Failed to convert from tinydns format %v %d, %d\", err, hdr.Rdlength, len(result[rec.Offset:]))\n\t\t\t\t\treturn err\n\t\t\t\t}\n\t\t\t\ta.Answer = append(a.Answer, rr)\n\t\t\t}\n\t\t}\n\t\treturn nil\n\t}\n\n\tvar lastLength", "\t\tif rec.Qtype == qtype || qtype == dns.TypeANY {\n\t\t\t// When dealing with A/AAAA we may have weighted round-robin records\n\t\t\t// Compute the weight and update wrr4/wrr6 with the current winner.\n\t\t\t// When we are done looping, we will add the record to the answer.\n\t\t\tif rec.Qtype == dns.TypeA || rec.Qtype == dns.TypeAAAA {\n\t\t\t\tif err := wrs.Add(rec, result); err != nil {\n\t\t\t\t\tglog.Errorf(\"Failed in adding record to WRS: %v\", err)\n\t\t\t\t}\n\t\t\t\t// For other records, we append them to the answer.\n\t\t\t} else {\n\t\t\t\thdr := dns.RR_Header{Name: qname, Rrtype: rec.Qtype, Class: dns.ClassINET, Ttl: rec.TTL, Rdlength: uint16(len(result[rec.Offset:]))}\n\t\t\t\trr, _, err = dns.UnpackRRWithHeader(hdr, result, rec.Offset)\n\t\t\t\tif err != nil {\n\t\t\t\t\tglog.Errorf(\"Failed to convert from tinydns format %v %d, %d\", err, hdr.Rdlength, len(result[rec.Offset:]))\n\t\t\t\t\treturn err\n\t\t\t\t}\n\t\t\t\ta.Answer = append(a.Answer, rr)\n\t\t\t}\n\t\t}\n\t\treturn nil\n\t}\n\n\tvar lastLength"}}},
 		variant{Name: "benign-v1-findanswer-loop-condition(B5)", Props: []string{"C01"}, Benign: true,
 			Edits: []edit{{ans, "\t\tif q[0] == 0 {\n\t\t\tbreak\n\t\t}\n\t\tif !dnsLabelWildsafe(q[1 : q[0]+1]) {\n\t\t\tbreak\n\t\t}\n\t\tq = q[q[0]+1:]", "\t\tif q[0] != 0 && dnsLabelWildsafe(q[1:q[0]+1]) {\n\t\t\tq = q[q[0]+1:]\n\t\t} else {\n\t\t\tbreak\n\t\t}"}}},
